@@ -66,17 +66,23 @@ Definition bare_node : fnode := mkNode bare_on_msg (fun _ _ => mkCR [] false) ye
 
 (* ------------------------------------------------------------------ TraceQLRequestProcessor.Process (goroutine WITHOUT recover) *)
 (* for i := range durationsNs { durationsNs[i] == timestampsNs[i] }      needs nd <= nt
-   for i, id := range spanIds { durationsNs[i]; timestampsNs[i] }        needs ns <= nd (and ns <= nt) *)
+   for i, id := range spanIds { durationsNs[i]; timestampsNs[i] }        needs ns <= nd (and ns <= nt)
+   Since 51fb0f7 the body first compares the three lengths and ends the result (logger.Error; return, rows closed by
+   the defer) when they differ; checked = false is the code before. *)
 Definition trace_row_safe (ns nd nt : Z) : bool := (nd <=? nt) && (ns <=? nd).
-Definition tq_on_msg (canc : bool) (i : Z) (m : fmsg) : rr Z fmsg :=
+Definition trace_row_consistent (ns nd nt : Z) : bool := Z.eqb nd ns && Z.eqb nt ns.
+Definition tq_on_msg (checked : bool) (canc : bool) (i : Z) (m : fmsg) : rr Z fmsg :=
   match m with
   | FRow FBad => mkRR [] false (NStop true)                  (* logger.Error; return (defer rows.Close()) *)
   | FRow FOk => mkRR [FBatch 1] false (NCont i)
-  | FRow (FTrace ns nd nt) => if trace_row_safe ns nd nt then mkRR [FBatch 1] false (NCont i)
-                              else mkRR [] false NFault      (* index out of range: the process exits *)
+  | FRow (FTrace ns nd nt) =>
+    if checked && negb (trace_row_consistent ns nd nt) then mkRR [] false (NStop true)
+    else if trace_row_safe ns nd nt then mkRR [FBatch 1] false (NCont i)
+    else mkRR [] false NFault                                (* index out of range: the process exits *)
   | _ => mkRR [] false (NCont i)
   end.
-Definition tq_node : fnode := mkNode tq_on_msg (fun _ _ => mkCR [] false) yes.
+Definition tq_node_gen (checked : bool) : fnode := mkNode (tq_on_msg checked) (fun _ _ => mkCR [] false) yes.
+Definition tq_node : fnode := tq_node_gen true.
 
 (* ------------------------------------------------------------------ forwarders *)
 (* flatten: for tags := range req { for _, v := range tags { res <- v } }   (TagsV2, ValuesV2)
@@ -97,16 +103,17 @@ Definition rcell (n : fnode) : fcell := mkCell n (CRecv 0).
 (* ------------------------------------------------------------------ chains *)
 Inductive fchain := ChLabel | ChBare | ChTraceQL | ChIter | ChSource (flatten : bool).
 
-Definition fstages (c : fchain) : list fcell :=
+Definition fstages_gen (checked : bool) (c : fchain) : list fcell :=
   match c with
   | ChLabel => [lbl_cell; rcell sink_node]
   | ChBare => [rcell bare_node; rcell sink_node]
-  | ChTraceQL => [rcell tq_node; rcell (fwd_node false); rcell sink_node]
-  | ChIter => [rcell tq_node; rcell sink_node]
+  | ChTraceQL => [rcell (tq_node_gen checked); rcell (fwd_node false); rcell sink_node]
+  | ChIter => [rcell (tq_node_gen checked); rcell sink_node]
   | ChSource fl => [rcell (fwd_node fl); rcell sink_node]
   end.
+Definition fstages : fchain -> list fcell := fstages_gen true.
 
-(* messages on which no body faults: everything but a ragged TraceQL row *)
+(* messages on which no body faulted before 51fb0f7: everything but a ragged TraceQL row *)
 Definition fmsg_ok (m : fmsg) : bool :=
   match m with FRow (FTrace ns nd nt) => trace_row_safe ns nd nt | _ => true end.
 
@@ -133,8 +140,11 @@ Definition served (q : frequest) : list frow :=
   if f_fail_after q <? 0 then f_rows q else firstn (Z.to_nat (f_fail_after q)) (f_rows q).
 
 Definition row_bad (r : frow) : bool := match r with FBad => true | _ => false end.
+(* rows at which the TraceQL row goroutine ends the result *)
+Definition row_ends (r : frow) : bool :=
+  match r with FBad => true | FTrace ns nd nt => negb (trace_row_consistent ns nd nt) | FOk => false end.
 Fixpoint good_prefix (rs : list frow) : Z :=
-  match rs with [] => 0 | r :: tl => if row_bad r then 0 else 1 + good_prefix tl end.
+  match rs with [] => 0 | r :: tl => if row_ends r then 0 else 1 + good_prefix tl end.
 
 Definition run_fchain (rows : list fmsg) (c : fchain) : oclass :=
   class_of_run (fst (run run_fuel false (cells (init_config rows (fstages c))))).
